@@ -284,6 +284,8 @@ func ruleC08(c *Ctx, r *Report) {
 	}
 	// R6: a line cut short by a failing read is not completed and emitted
 	parserStrictRule(c, r, "C08-R6")
+	// R8: a gzip archive is verified before anything derived from it is written
+	gzipVerifiedRule(c, r, sf, "C08-R8")
 	// R7: ... nor is the unterminated fragment that bufio.Scanner delivers as a last token
 	// after a failed read taken for a line
 	failedReadFragmentRule(c, r, sf, "C08-R7")
@@ -489,4 +491,67 @@ func failedReadFragmentRule(c *Ctx, r *Report, sf *ssa.Function, rule string) {
 	r.Check(okAll && n > 0, rule, construct, c.InstrPos(ns),
 		"the scanner reads through "+named.Obj().Name()+", whose Read records a failed read, and every token reaches the redactor only after that record was tested nil",
 		"a token can reach the redactor without the recorded read error having been tested: the fragment after a failed read may be emitted")
+}
+
+// gzipVerifiedRule (C08-R8): gzip checks its CRC-32 and length only at the end of a
+// member, and a flipped bit usually still inflates - to different text. A line of that
+// text is redacted as whatever it now looks like (a renamed key is no longer a zone key)
+// and written long before the checksum error surfaces. So that what is written before
+// the failure is a prefix of the fault-free output, the archive has to be read through
+// once (to io.Discard) before the streaming pass starts.
+func gzipVerifiedRule(c *Ctx, r *Report, sf *ssa.Function, rule string) {
+	r.Floor(rule, 1, "gzip streaming sites")
+	// verifiers: package functions that build a gzip reader and drain it, returning the error
+	verifiers := map[*ssa.Function]bool{}
+	for _, f := range c.SortedFuncs() {
+		if f == sf || hasCallTo(f, fnFullName(sf)) {
+			continue
+		}
+		var gz *ssa.Call
+		for _, call := range callsIn(f, func(k string, _ *ssa.Call) bool { return k == "compress/gzip.NewReader" }) {
+			gz = call
+		}
+		if gz == nil {
+			continue
+		}
+		rd := extractOf(gz, 0)
+		drains := false
+		for _, call := range callsIn(f, func(k string, _ *ssa.Call) bool { return k == "io.Copy" || k == "io.ReadAll" }) {
+			for _, a := range call.Call.Args {
+				if rd != nil && derivesFrom(a, rd, 0) {
+					if okh, _ := checkCallErrHandled(call, true, nil); okh {
+						drains = true
+					}
+				}
+			}
+		}
+		if drains {
+			verifiers[f] = true
+		}
+	}
+	n := 0
+	seen := map[*ssa.Function]bool{}
+	for _, sc := range c.callersOf(sf) {
+		w := sc.Parent()
+		if seen[w] {
+			continue
+		}
+		for _, gz := range callsIn(w, func(k string, _ *ssa.Call) bool { return k == "compress/gzip.NewReader" }) {
+			seen[w] = true
+			n++
+			okV := false
+			for _, vc := range callsIn(w, func(k string, cc *ssa.Call) bool { return verifiers[cc.Call.StaticCallee()] }) {
+				dom := vc.Block().Dominates(gz.Block()) && (vc.Block() != gz.Block() || instrIndex(vc) < instrIndex(gz))
+				if okh, _ := checkCallErrHandled(vc, true, nil); okh && dom {
+					okV = true
+				}
+			}
+			r.Check(okV, rule, w.Name()+":gzip-verified-before-streaming", c.InstrPos(gz),
+				"the archive is read through once, with its error returned, before the streaming pass: a corrupt or truncated archive is reported before any record derived from it is written",
+				"records are written while the archive is still being inflated and its checksum is only seen at the end: a corrupt archive (one flipped bit) makes the tool write lines redacted as something they are not - possibly unredacted - before it reports the failure")
+		}
+	}
+	if n == 0 {
+		r.Trivial(rule, "no-gzip-streaming", "-", "no gzip reader is handed to the scan loop")
+	}
 }
